@@ -329,7 +329,10 @@ def step_programs() -> List[Tuple[Dict[str, Any], str]]:
     allp = list(progs.corpus("quick", 0))
     # F2 shapes are excluded here (they are obligation 1's known finding); every kind is represented
     keep = [p for p in allp if p[0]["tail"] in ("plain", "nested_with", "nested_async_with", "try_finally_last", "raise", "swallow", "empty")]
-    return keep[::5]
+    import os
+
+    stride = int(os.environ.get("VERIF_CORPUS_STRIDE", "1") or 1)
+    return keep[::5 * stride]
 
 
 def real_step_case(pi: int, ri: int, s: Any) -> Dict[str, Any]:
